@@ -198,7 +198,7 @@ pub fn proofs(w: &mut World, sid: usize) {
 
 /// A random history in which every block is also delivered as a block to its parent (honest and mutated),
 /// every sealed state is restarted and the twin is driven in lockstep, and every entry is proven.
-pub fn chain_history(out: &mut crate::Out, tag: &str, seed: u64, net: NetID, blocks: usize, fee_mult: u128) {
+pub fn chain_history(out: &mut crate::Out, tag: &str, seed: u64, net: NetID, blocks: usize, fee_mult: u128, big: bool) {
     let mut d = Driver::new(out, tag, seed, net, fee_mult, Denom::Mel, 1u128 << 60, 1 << 40, BTreeMap::new());
     d.wal.simple = d.r.gen_bool(0.5);
     let first = d.seal_next(Some(false)).unwrap();
@@ -208,7 +208,44 @@ pub fn chain_history(out: &mut crate::Out, tag: &str, seed: u64, net: NetID, blo
         let f = d.faucet(vec![mk_coin(a, 5_000_000_000, Denom::Sym, &[]), mk_coin(b, 7_000_000_000, Denom::Erg, &[]), mk_coin(a, 1_000_000_000_000, Denom::Mel, &[])], 0, 1);
         d.apply(&[f], 0, json!({"why": "bootstrap-faucet"}));
     }
+    // one large block with in-block dependencies: 70 faucets and 70 transactions spending them, delivered as a block through
+    // several re-seeded hash sets (the order in which a node sees the transactions must not matter)
     let mut parent = first; // sealed state the current block extends
+    if net != NetID::Mainnet && big {
+        let a = d.wal.address(CovKind::True);
+        let mut batch: Vec<Transaction> = vec![];
+        for i in 0..70u32 {
+            let f = d.faucet(vec![mk_coin(a, 1_000_000 + i as u128, Denom::Mel, &[])], 0, (i % 250) as u8);
+            let mut f = f;
+            f.data = vec![(i % 250) as u8, (i / 250) as u8, 99].into();
+            for _ in 0..3 {
+                f.fee = CoinValue(crate::wallet::min_fee(&f, d.fee_mult()));
+            }
+            let h = d.view().height;
+            let c = (CoinID::new(f.hash_nosigs(), 0), CoinDataHeight { coin_data: f.outputs[0].clone(), height: h });
+            if let Some(child) = d.build(TxKind::Normal, &[c], vec![], 1, vec![], 0) {
+                batch.push(f);
+                batch.push(child);
+            }
+        }
+        if d.apply(&batch, 0, json!({"why": "large batch with in-batch dependencies", "agreeRes": format!("C03res|{}|bigblock", tag)})) {
+            if let Some(sealed) = d.seal_next(Some(true)) {
+                let blk = d.w.sealed(sealed).to_block();
+                let par = d.w.sealed(parent).clone();
+                let txs: Vec<Transaction> = blk.transactions.iter().cloned().collect();
+                let honest = honest_header(&par, &txs, blk.proposer_action);
+                let key = format!("C03|{}|bigblock", tag);
+                for threads in [0usize, 1, 3, 16, 0, 0, 0, 0] {
+                    let rebuilt = Block { header: blk.header, transactions: blk.transactions.iter().cloned().collect::<HashSet<_>>(), proposer_action: blk.proposer_action };
+                    let mut x = extra("none (large block)", &honest, None);
+                    x["agree"] = json!([[key.clone(), "C03"]]);
+                    x["agreeRes"] = json!(format!("C03res|{}|bigblock", tag));
+                    d.w.block(parent, &rebuilt, threads, x);
+                }
+                parent = sealed;
+            }
+        }
+    }
     let mut twin: Option<usize> = None; // restarted twin of `parent`
     for b in 0..blocks {
         let nb = d.r.gen_range(1..4);
